@@ -277,7 +277,21 @@ pub fn gen_script(t: &mut Tape, gates: &Gates, max_len: usize) -> Script {
             8 => {
                 if gates.want("CLIENT_RESPONSE_MESSAGE") {
                     // a response to an id the server never used
-                    let body = if t.flag() { json!({"jsonrpc": "2.0", "id": 9000 + next_id, "result": null}) } else { json!({"jsonrpc": "2.0", "id": 9000 + next_id, "error": {"code": -32601, "message": "nope"}}) };
+                    // (any result value; any error code of JSON-RPC / LSP or outside both, with and
+                    // without data; a string id)
+                    let rid = if t.ratio(1, 5) { json!(format!("srv-{}", next_id)) } else { json!(9000 + next_id) };
+                    let body = match t.below(4) {
+                        0 => json!({"jsonrpc": "2.0", "id": rid, "result": null}),
+                        1 => json!({"jsonrpc": "2.0", "id": rid, "result": t.pick(&[json!({}), json!([]), json!(true), json!(0), json!("ok"), json!({"applied": false})]).clone()}),
+                        _ => {
+                            let code = *t.pick(&[-32700i64, -32600, -32601, -32602, -32603, -32099, -32002, -32001, -32800, -32801, -32802, -32803, 0, 1, -1, 2147483647, -2147483648]);
+                            let mut e = json!({"code": code, "message": *t.pick(&["nope", "", "Parse error", "caf\u{e9} \u{1f600}"])});
+                            if t.flag() {
+                                e["data"] = t.pick(&[json!(null), json!({"retry": true}), json!("x"), json!([1, 2])]).clone();
+                            }
+                            json!({"jsonrpc": "2.0", "id": rid, "error": e})
+                        }
+                    };
                     s.messages.push(body);
                     s.kinds.push("client-response");
                 }
